@@ -312,7 +312,7 @@ class AsynchronousDeferredRunTest(_DeferredRunTest):
         asynchronous Deferreds.  As such, we take the responsibility for
         running the cleanups, rather than letting TestCase do it.
         """
-        exceptions = []
+        failed = False
         while self.case._cleanups:
             f, args, kwargs = self.case._cleanups.pop()
             d = defer.maybeDeferred(f, *args, **kwargs)
@@ -323,11 +323,12 @@ class AsynchronousDeferredRunTest(_DeferredRunTest):
             except BaseException:
                 # KeyboardInterrupt and SystemExit included: the remaining
                 # cleanups still have to run, and RunTest re-raises them once
-                # the outcome has been reported.
-                exc_info = sys.exc_info()
-                self.case._report_traceback(exc_info)
-                exceptions.append(exc_info[1])
-        return exceptions
+                # the outcome has been reported.  Handled like an exception
+                # from any other stage: traceback detail, addOnException
+                # handlers, MultipleExceptions unpacked, outcome selection.
+                self._got_user_exception(sys.exc_info())
+                failed = True
+        return failed
 
     def _make_spinner(self):
         """Make the `Spinner` to be used to run the tests."""
@@ -351,11 +352,8 @@ class AsynchronousDeferredRunTest(_DeferredRunTest):
             """Run the cleanups."""
             d = self._run_cleanups()
 
-            def clean_up_done(exceptions):
-                if exceptions:
-                    # Every one of them takes part in choosing the outcome, so
-                    # that e.g. an interrupt is not lost behind a later error.
-                    self._exceptions.extend(exceptions)
+            def clean_up_done(failed):
+                if failed:
                     fails.append(None)
 
             return d.addCallback(clean_up_done)
